@@ -35,6 +35,6 @@ static void op_nsqrtrem(int argc, char **argv)
   gbuf_free(np); gbuf_free(sp); gbuf_free(rp); }
 const op_t ops_root[] = {
   {"mpz_sqrt", op_sqrt}, {"mpz_sqrtrem", op_sqrtrem}, {"mpz_root", op_root}, {"mpz_nthroot", op_nthroot}, {"mpz_rootrem", op_rootrem},
-  {"mpz_perfect_square_p", op_psq}, {"mpz_perfect_power_p", op_ppow}, {"mpn_sqrtrem", op_nsqrtrem},
+  {"mpz_perfect_square_p", op_psq}, {"mpz_perfect_power_p", op_ppow}, {"mpn_sqrtrem", op_nsqrtrem}, {"mpn_sqrtrem_c", op_nsqrtrem},
   {NULL, NULL}
 };
